@@ -112,4 +112,13 @@ def heldCheck (digest : String) (sid held : Nat) : List String :=
 def capWait (cap0 cap : Nat) (woken : Bool) : List String :=
   if cap > cap0 && !woken then ["C16 capacity-arrived-without-waking-the-waiter"] else []
 
+/-- C06, nothing sendable is left behind: at a point where the connection task has polled until it had
+    nothing more to write, the transport takes everything and all input has been read, a live stream that
+    still has DATA buffered is waiting for window — its own (`window ≤ 0`) or the connection's (nothing
+    unassigned, `connAvailable ≤ 0`, and none assigned to it, `available ≤ 0`) — or for a concurrency slot
+    (`pendingOpen`).  Otherwise the scheduler has lost the stream: it will never send although it could. -/
+def stalled (connAvailable window available buffered : Int) (pendingOpen : Bool) : List String :=
+  if buffered > 0 && !pendingOpen && window > 0 && (available > 0 || connAvailable > 0) then
+    ["C06 stream-with-buffered-data-and-window-is-not-scheduled"] else []
+
 end H2V.Spec.StateInv
